@@ -136,3 +136,36 @@ fn concurrent_drop_of_the_last_handles_closes_the_source() {
         assert!(matches!(h.enable(&tok), Err(calloop::Error::InvalidToken)), "round {}: every handle is gone but the source did not remove itself", round);
     }
 }
+
+/// round 9 (seed C03-5): the last handle goes away while the source is NOT registered (disabled, or not inserted yet) with
+/// a ping outstanding; once the source is registered the outstanding ping is delivered, then the source removes itself
+#[test]
+fn an_outstanding_ping_and_the_close_survive_a_gap_in_the_registration() {
+    for variant in 0..3u8 {
+        let mut el: EventLoop<u64> = EventLoop::try_new().unwrap();
+        let h = el.handle();
+        let (ping, src) = make_ping().unwrap();
+        let mut n = 0u64;
+        let tok = if variant == 0 {
+            ping.ping();
+            drop(ping);                                        // pinged and closed before the insertion
+            h.insert_source(src, |_, _, n| *n += 1).unwrap()
+        } else {
+            let tok = h.insert_source(src, |_, _, n| *n += 1).unwrap();
+            h.disable(&tok).unwrap();
+            ping.ping();
+            if variant == 2 { let p2 = ping.clone(); drop(ping); p2.ping(); drop(p2); } else { drop(ping); }
+            el.dispatch(Duration::ZERO, &mut n).unwrap();
+            assert_eq!(n, 0, "variant {}: a disabled ping source fired", variant);
+            h.enable(&tok).unwrap();
+            tok
+        };
+        el.dispatch(Duration::from_millis(200), &mut n).unwrap();
+        assert_eq!(n, 1, "variant {}: the outstanding ping was not delivered after the source was registered", variant);
+        let t = Instant::now();
+        el.dispatch(Duration::from_millis(50), &mut n).unwrap();
+        assert_eq!(n, 1);
+        assert!(t.elapsed() >= Duration::from_millis(40), "variant {}: the closed ping source keeps the loop spinning", variant);
+        assert!(matches!(h.enable(&tok), Err(calloop::Error::InvalidToken)), "variant {}: the closed ping source did not remove itself", variant);
+    }
+}
